@@ -901,7 +901,7 @@ class Engine(object):
             return out
         if base is NONE:
             return self.partial(st, node, 'AttributeError', False, NONE)
-        if isinstance(base, (ListV, SeqV, MapV, SetV, ConstDict, tuple, str, StrV)) or is_scalar(base):
+        if isinstance(base, (ListV, SeqV, MapV, SetV, LitSet, ConstDict, tuple, str, StrV)) or is_scalar(base):
             if is_scalar(base):
                 # an int-valued enum member (rig.links.Links, Routes ...): methods of the enum class
                 ic = self.options.get("int_class")
